@@ -78,7 +78,7 @@ class Ctx:
 
     # -- feasibility -------------------------------------------------------
     def _check(self, c):
-        for m in self.models:
+        for m in (self.models if OPTS.get('model_cache', True) else ()):
             if _mtrue(m, c):
                 return 'sat'
         self.nq += 1
@@ -86,7 +86,7 @@ class Ctx:
         self.solver.push()
         self.solver.add(c)
         r = str(self.solver.check())
-        if r == 'sat':
+        if r == 'sat' and OPTS.get('model_cache', True):
             try:
                 self.models.append(self.solver.model())
                 if len(self.models) > 6:
@@ -123,7 +123,8 @@ class Ctx:
         c = cond if d else z3.Not(cond)
         self.pc.append(c)
         self.solver.add(c)
-        self.models = [m for m in self.models if _mtrue(m, c)]
+        if self.models:
+            self.models = [m for m in self.models if _mtrue(m, c)]
         return d
 
 
